@@ -515,11 +515,13 @@ def run(model, tier):
         '[closure]/[variable]; every component of each residual F is homogeneous and each Jacobian entry DF[i,j] has '
         'dimension [F_i]/[x_j] (four residual classes). (3) Inverse closures: P(rho, e(rho, P)) - P and '
         'e(rho, P(rho, e)) - e reduce to 0 as rational functions (canonical rational normal form, piecewise for '
-        'Steinberg). That a dimensionally correct derivative is THE derivative, that F_prime_inv is the inverse and '
-        'Newton convergence are not decided (symbolic differentiation / numerics). (4) Setter coherence: for every public set_new_* '
+        'Steinberg). (5) Derivatives: each analytic partial derivative is the symbolic derivative of its closure (piece by piece for '
+        'Steinberg), each Jacobian entry DF[i,j] is dF_i/dx_j for the three admissible geometry exponents, and the hand-written 2x2 '
+        'inverses times the Jacobian are the identity. Newton convergence and the sign of the shock speed of the root found are not '
+        'decided (numerics). (4) Setter coherence: for every public set_new_* '
         'method of an EOS or residual class, construct(args); setter(x) leaves the object in the same abstract state (normal forms of '
         'all attributes) as construct(args with the corresponding argument replaced by x): no cached derived constant goes stale.')
-    res.rule_text = 'instances: interface slots, dimension constraints, inverse-closure identities'
+    res.rule_text = 'instances: interface slots, dimension constraints, inverse-closure identities, derivative identities, setter states'
     res.trusted_base = ['CPython ast', 'sympy FracField / cancel', 'signature table']
     interface(model, res)
     eos_dims(model, res)
